@@ -640,13 +640,31 @@ def atomic_and_group_arms(run, ctx):
         if not H.pat_match("self.compile_conditional(|{c},{i}| {c}.visit(%s.children[{i}],%s))?" % (INFO, HARDP), c):
             run.violation(fam, "visit-arms", "Conditional", H.where(a[0]), "Expr::Conditional must always be lowered by compile_conditional over children 0,1,2 in the incoming context (a special-cased lowering loses the commit that keeps a failed true-branch from falling back to the false branch), found %s" % c[:200])
     # Any
+    seen_nl = set()
     for a in arms.get("Any", []):
         pc = H.pat_canon(a["pat"])
         c = H.canon(a["body"])
         n += 1
-        want = "self.b.add(Insn::Any)" if "newline:true" in pc else "self.b.add(Insn::AnyNoNL)"
-        if c != want:
-            run.violation(fam, "visit-arms", "Any/" + pc, H.where(a), "Expr::%s must compile to %s, found %s" % (pc, want, c))
+        mvar = re.search(r"newline:(\w+)", pc)
+        for p in S.paths_of(a["body"]):
+            # is `newline` set on this path?  from the pattern (newline: true / false) or a test of the bound field
+            nl = None
+            if "newline:true" in pc:
+                nl = True
+            elif "newline:false" in pc:
+                nl = False
+            elif mvar:
+                tr = [ev.b for ev in p.events if ev.kind == "cond" and ev.a == mvar.group(1)]
+                nl = tr[-1] if tr else None
+            sm = S.Summary(p)
+            adds = [x for x in sm.calls if x.startswith("self.b.add(")]
+            want = "self.b.add(Insn::Any)" if nl else "self.b.add(Insn::AnyNoNL)"
+            if nl is None or adds != [want]:
+                run.violation(fam, "visit-arms", "Any/" + pc, H.where(a), "Expr::%s must compile to %s, found %s" % (pc, want, c))
+                break
+            seen_nl.add(nl)
+    if arms.get("Any") and seen_nl != {True, False}:
+        run.violation(fam, "visit-arms", "Any/anchor-missing", H.where(fn), "anchor-missing: Expr::Any must be compiled for newline = true and false")
     # Literal: case-sensitive literal -> Lit(val), case-insensitive -> delegate
     a = arms.get("Literal")
     if a:
@@ -940,7 +958,7 @@ def concat_predicates(run, ctx):
     # the three parts partition the children in order
     c = H.canon(fn["body"])
     n += 1
-    for want in ("self.compile_delegates(%s.children[..prefix_end])?" % INFO, "for child in %s.children[prefix_end..suffix_begin].iter()" % INFO,
+    for want in ("self.compile_delegates(%s.children[..prefix_end])?" % INFO, "for child in %s.children[prefix_end..suffix_begin]" % INFO,
                  "self.compile_delegates(%s.children[suffix_begin..])" % INFO, "let suffix_begin = (len(%s.children) - suffix_len)" % INFO):
         if want not in c:
             run.violation(fam, label, "partition/" + want[:30], w, "compile_concat must emit prefix, middle, suffix as consecutive slices of the children; missing `%s`" % want)
